@@ -313,7 +313,21 @@ fn run_timed(kind: &str, bytes: &[u8], heartbeat: &dyn Fn()) -> Result<Option<St
         if used > 4 * limit { break; }
         heartbeat();
     }
-    Ok(Some(format!("slow: used {:.2} s of CPU time, the budget of a {}-byte input is {:.2} s (1 s + 10 us per byte)", best.unwrap_or_default().as_secs_f64(), bytes.len(), limit.as_secs_f64())))
+    // The clock is the CPU time of the whole process, and a load wakes the pool of parsing threads: on a busy or throttled
+    // host their spinning alone can cost more than the budget.  So an input that is over its budget is only reported when
+    // it also costs far more (30 times) than an ordinary small input of the same entry point costs right now, measured the
+    // same way.  Inputs that make the library loop, or work quadratically, are orders of magnitude beyond that.
+    let best = best.unwrap_or_default();
+    if best <= 4 * limit.max(Duration::from_secs(5)) {
+        let control: Vec<u8> = if kind.starts_with("doc") { seeds().into_iter().next().map(|x| x.1).unwrap_or_default() } else { Vec::new() };
+        if !control.is_empty() {
+            let mut ctl = Duration::MAX;
+            for _ in 0..3 { let c0 = cpu_now(); let _ = guarded(|| consume("doc", &control)); ctl = ctl.min(cpu_now().saturating_sub(c0)); }
+            heartbeat();
+            if best < 30 * ctl.max(Duration::from_millis(1)) { return Ok(None); }
+        }
+    }
+    Ok(Some(format!("slow: used {:.2} s of CPU time, the budget of a {}-byte input is {:.2} s (1 s + 10 us per byte)", best.as_secs_f64(), bytes.len(), limit.as_secs_f64())))
 }
 
 fn seeds() -> Vec<(String, Vec<u8>)> {
@@ -594,7 +608,7 @@ pub fn run_depth(thorough: bool) -> Report {
 
 pub fn run(thorough: bool) -> Report {
     let jobs = all_jobs(thorough);
-    let mut rep = Report::new("seeds: 4 small documents (table / xref stream / Flate+predictor xref stream with object stream / incremental), a content stream, a ToUnicode CMap, a text string; inputs: every single-byte substitution (quick: 25 lexically significant values, thorough: all 256) at every offset, every truncation, splices, 17 numeric extremes in every digit run, and in every digit run the second-order extremes floor((L-k)/d) and successor for L = 2^31-1, 2^32-1, 2^63-1, 2^64-1, k = 0..=8 (a value above 2^63-1 written as the negative integer that casts to it: -1..-9), d = 1 for documents (39 values; thorough d in 1,2,3,4,8: 85 values), d in 1..=8,12,16,24,32,48,64 for the content stream and the CMap (150 values), every <hex string> of the CMap replaced by 00.., 7FFF.., 8000.., FF.. of 1 to 5 bytes, W/Index/Prev/Length/Kids constructions (cycles, and chains of 2..5000 streams each taking its /Length from the next), 76 files whose stream /Length is a compressed object resolving after the parallel phase (values 0..700 in steps of 10 around the distance to the end of the file, and 2^32, 2^63-1), nesting depth up to 3000 (thorough 100000) for [ << ( and dictionaries, all filter-parameter selector combinations over six payloads (empty deflate, raw rows, ASCII85, and three zlib streams ending in a truncated predictor row); inline images BI..ID..EI (data size ceil(W*BPC*components/8)*H): colour space G, DeviceGray, RGB, DeviceRGB, CMYK, DeviceCMYK (abbreviated keys for the short names, full keys for the long ones) x BPC 1,2,4,8,16, each with the 150 second-order extremes at W, at H and at BPC, and for the short spellings the 39 x 39 pairs (d = 1) at W and H together (36345 content streams); ToUnicode CMaps written from the grammar: code length 1..=4 x bfrange lo, hi each over 0, 1, middle, max-1, max of that length (25 pairs: empty, single, reversed, half and full ranges up to 2^32 codes) x destination <0041>, <00660069>, [<0041>], [<0041> <0042>], [<0041> <00420043> <0044>], [] x the line once or three times x alone or after bfchar and bfrange definitions (2400 CMaps; each then decodes 7 code strings of 1..4-byte codes); Flate + predictor 2 and 12 with Colors 1,3,4 x BitsPerComponent 1,2,4,8,16 x the 150 extremes as Columns, and the 39 extremes (d = 1) as Colors, as BitsPerComponent, and as Columns and Colors together (7698); stream dictionaries written from the grammar, in a one-page file as the page's content stream, as an object stream holding the page, and as the cross-reference stream: /Filter = every chain of 0..=3 of FlateDecode, LZWDecode, ASCII85Decode as an array (a chain of one also as a name) and six odd spellings (7, null, [7], [/FlateDecode 7], /DCTDecode, [/FlateDecode /DCTDecode]) x /DecodeParms absent, or null, <</Predictor 1/EarlyChange 1>>, <</Predictor 12/Columns 1>>, 7, a dangling reference, or an array of 0..=n+1 entries for n filters (shorter than, parallel to and longer than /Filter) all of one of these five values (thorough: also every mixed array over null, the first dictionary and 7) x data encoded correctly for the chain, so that every filter of the chain is reached, or cut in half (quick 6918, thorough 26754 files); size scaling (entry point doc-scaled; the other families hold inputs of some hundred bytes only): a well-formed one-page file with each of the 16 tokens %PDF-1.5, %%EOF, startxref, xref, trailer, obj, endobj, stream, endstream, R, <<, >>, [, ], (, ) on n lines of their own before the header, in comment lines before the cross-reference table, as the data of a stream with correct /Length, inside a literal string, and after the last %%EOF, n = 10, 100, .. 10^6 (thorough also 30, 300, .. 3 * 10^5): files up to 10 MB, and the same file with n incremental updates (object, one-entry xref section, trailer with /Prev, startxref, %%EOF), with n more objects in one xref section, and with n more objects in one xref subsection each, n = 10, 100, 1000, 10^4 (thorough 3 * 10^4) (quick 492, thorough 895 files, built when they run); each input in a worker with a 2 MiB stack, 4 GB address space, a 10 s no-progress watchdog (an input over 400 KB, whose budget is over 5 s: twice its budget), and a CPU-time budget of 1 s + 10 us per input byte (process CPU time over all threads; measured a second time, smaller figure kept, unless exceeded more than 4 times)", false);
+    let mut rep = Report::new("seeds: 4 small documents (table / xref stream / Flate+predictor xref stream with object stream / incremental), a content stream, a ToUnicode CMap, a text string; inputs: every single-byte substitution (quick: 25 lexically significant values, thorough: all 256) at every offset, every truncation, splices, 17 numeric extremes in every digit run, and in every digit run the second-order extremes floor((L-k)/d) and successor for L = 2^31-1, 2^32-1, 2^63-1, 2^64-1, k = 0..=8 (a value above 2^63-1 written as the negative integer that casts to it: -1..-9), d = 1 for documents (39 values; thorough d in 1,2,3,4,8: 85 values), d in 1..=8,12,16,24,32,48,64 for the content stream and the CMap (150 values), every <hex string> of the CMap replaced by 00.., 7FFF.., 8000.., FF.. of 1 to 5 bytes, W/Index/Prev/Length/Kids constructions (cycles, and chains of 2..5000 streams each taking its /Length from the next), 76 files whose stream /Length is a compressed object resolving after the parallel phase (values 0..700 in steps of 10 around the distance to the end of the file, and 2^32, 2^63-1), nesting depth up to 3000 (thorough 100000) for [ << ( and dictionaries, all filter-parameter selector combinations over six payloads (empty deflate, raw rows, ASCII85, and three zlib streams ending in a truncated predictor row); inline images BI..ID..EI (data size ceil(W*BPC*components/8)*H): colour space G, DeviceGray, RGB, DeviceRGB, CMYK, DeviceCMYK (abbreviated keys for the short names, full keys for the long ones) x BPC 1,2,4,8,16, each with the 150 second-order extremes at W, at H and at BPC, and for the short spellings the 39 x 39 pairs (d = 1) at W and H together (36345 content streams); ToUnicode CMaps written from the grammar: code length 1..=4 x bfrange lo, hi each over 0, 1, middle, max-1, max of that length (25 pairs: empty, single, reversed, half and full ranges up to 2^32 codes) x destination <0041>, <00660069>, [<0041>], [<0041> <0042>], [<0041> <00420043> <0044>], [] x the line once or three times x alone or after bfchar and bfrange definitions (2400 CMaps; each then decodes 7 code strings of 1..4-byte codes); Flate + predictor 2 and 12 with Colors 1,3,4 x BitsPerComponent 1,2,4,8,16 x the 150 extremes as Columns, and the 39 extremes (d = 1) as Colors, as BitsPerComponent, and as Columns and Colors together (7698); stream dictionaries written from the grammar, in a one-page file as the page's content stream, as an object stream holding the page, and as the cross-reference stream: /Filter = every chain of 0..=3 of FlateDecode, LZWDecode, ASCII85Decode as an array (a chain of one also as a name) and six odd spellings (7, null, [7], [/FlateDecode 7], /DCTDecode, [/FlateDecode /DCTDecode]) x /DecodeParms absent, or null, <</Predictor 1/EarlyChange 1>>, <</Predictor 12/Columns 1>>, 7, a dangling reference, or an array of 0..=n+1 entries for n filters (shorter than, parallel to and longer than /Filter) all of one of these five values (thorough: also every mixed array over null, the first dictionary and 7) x data encoded correctly for the chain, so that every filter of the chain is reached, or cut in half (quick 6918, thorough 26754 files); size scaling (entry point doc-scaled; the other families hold inputs of some hundred bytes only): a well-formed one-page file with each of the 16 tokens %PDF-1.5, %%EOF, startxref, xref, trailer, obj, endobj, stream, endstream, R, <<, >>, [, ], (, ) on n lines of their own before the header, in comment lines before the cross-reference table, as the data of a stream with correct /Length, inside a literal string, and after the last %%EOF, n = 10, 100, .. 10^6 (thorough also 30, 300, .. 3 * 10^5): files up to 10 MB, and the same file with n incremental updates (object, one-entry xref section, trailer with /Prev, startxref, %%EOF), with n more objects in one xref section, and with n more objects in one xref subsection each, n = 10, 100, 1000, 10^4 (thorough 3 * 10^4) (quick 492, thorough 895 files, built when they run); each input in a worker with a 2 MiB stack, 4 GB address space, a 10 s no-progress watchdog (an input over 400 KB, whose budget is over 5 s: twice its budget), and a CPU-time budget of 1 s + 10 us per input byte (process CPU time over all threads; measured a second time, smaller figure kept, unless exceeded more than 4 times; a document over its budget by less than that is reported only if it also costs 30 times what a small ordinary document costs at that moment, so that a busy host is not taken for a slow library)", false);
     let n = jobs.len();
     let workers = WORKERS;
     let chunk = (n + workers - 1) / workers;
